@@ -8,7 +8,10 @@ name, wt, tier = sys.argv[1], sys.argv[2], sys.argv[3]
 checks = sys.argv[4:]
 dst = f"/verif/seeded/{name}"
 os.makedirs(dst, exist_ok=True)
-conf = subprocess.run(["/verif/tools/confirm_mutant.sh", wt], capture_output=True, text=True).stdout.strip().splitlines()
+if os.path.exists(f"{wt}/out/confirm.line"):  # confirmed beforehand (tools/confirm_mutant.sh run in parallel)
+    conf = open(f"{wt}/out/confirm.line").read().strip().splitlines()
+else:
+    conf = subprocess.run(["/verif/tools/confirm_mutant.sh", wt], capture_output=True, text=True).stdout.strip().splitlines()
 confline = [l for l in conf if l.startswith("RESULT")][-1] if conf else "RESULT none"
 ok = "demo_without_patch_rc=0" in confline and "demo_with_patch_rc=101" in confline and "suite_with_patch_rc=0" in confline
 shutil.copy(f"{wt}/out/patch.diff", f"{dst}/patch.diff")
